@@ -1,3 +1,4 @@
 /- Props/C20.lean — property C20: all theorems live in namespace CM.Props.C20, split over two files. -/
 import CircuitProofs.Props.C20Base
 import CircuitProofs.Props.C20Stream
+import CircuitProofs.Props.C20Tie
